@@ -40,6 +40,10 @@ const OUTCOMES: &[(&str, Expect, Option<&str>)] = &[
     ("Satisfiable", Expect::NotTheorem, None),
     ("Theorems", Expect::NotTheorem, None),
     ("theorem", Expect::NotTheorem, None),
+    ("Theorem2", Expect::NotTheorem, None),
+    ("Theorem_Unproven", Expect::NotTheorem, None),
+    ("NoTheorem", Expect::NotTheorem, None),
+    ("CounterTheorem", Expect::NotTheorem, None),
     ("nostatus", Expect::NotTheorem, None),
     ("nonutf8", Expect::NotTheorem, None),
     ("nonzero_exit", Expect::NotTheorem, None),
